@@ -1,6 +1,7 @@
 package main
 
 import (
+	"encoding/json"
 	"flag"
 	"fmt"
 	"os"
@@ -59,6 +60,7 @@ func main() {
 		fs := flag.NewFlagSet("func", flag.ExitOnError)
 		timeout := fs.Int("t", 10, "solver timeout")
 		dump := fs.Bool("dump", false, "print failing queries")
+		replay := fs.Bool("replay", false, "search for a counter-model of failing obligations and replay it on the real code")
 		pkgs := fs.String("pkgs", "", "comma-separated packages to load (default: all with contracts)")
 		fs.Parse(os.Args[2:])
 		ps := contractPackages()
@@ -112,6 +114,11 @@ func main() {
 					bad++
 					if *dump {
 						fmt.Println(o.Output)
+					}
+					if *replay {
+						e.Replay(o, out)
+						b, _ := json.MarshalIndent(o.ReplayInfo, "  ", " ")
+						fmt.Println("  replay:", string(b))
 					}
 				}
 			}
